@@ -59,6 +59,11 @@ NT = T.NewType('NT', int)
 NU = T.NewType('NU', U0)
 NN = T.NewType('NN', NT)                               # nested NewType
 NL = T.NewType('NL', list[int])                        # NewType over a non-class (outside the model)
+# look-alikes: DISTINCT, UNEQUAL hints whose repr() is the repr of another hint of the pool (same-named TypeVars and
+# NewTypes of two modules, a class re-created by a factory): wrappers are cached per hint, never per repr
+TV_2 = T.TypeVar('TV', bound=str)
+NT_2 = T.NewType('NT', str)
+U0_2 = type('U0', (), {'__module__': __name__, '__qualname__': 'U0'})
 # Annotated by beartype validators: the metadata changes the meaning, which the model's opaque metadata cannot express;
 # these hints take part in the real-output oracles only
 from beartype.vale import IsEqual as _IsEqual, IsInstance as _IsInstance  # noqa: E402
@@ -118,6 +123,8 @@ def fixed_pool(big: bool) -> list:
         if k not in seen:
             seen.add(k)
             out.append(h)
+    # after the originals (the originals are wrapped first): their look-alikes, bare and as children
+    out += [TV_2, NT_2, U0_2, list[TV_2], list[NT_2], Un[U0_2, str], tuple[NT_2, ...]]
     return out
 
 
@@ -515,6 +522,15 @@ def explore(ck: Check, n_random: int, seed: int, big: bool) -> Explore:
         if repr(h) not in seen:
             seen.add(repr(h))
             pool.append(h)
+    incoherent = []
+    for h in pool:
+        c = canonical(h)
+        try:
+            same = c is h or c == h
+        except Exception:
+            same = True
+        if not same:
+            incoherent.append((h, c))
     pool = [canonical(h) for h in pool]
     N = len(pool)
     models = []
@@ -545,6 +561,11 @@ def explore(ck: Check, n_random: int, seed: int, big: bool) -> Explore:
             rp = dict(rp)
             rp['_weight'] = weight
             failures[key] = Failure(key=key, what=what, replay=rp)
+
+    for h, c in incoherent:
+        fail(f'C19:coherence:wrapper-of-another-hint:{kind(h)}',
+             f'TypeHint({h!r}).hint is {c!r}, a different and unequal hint (id {id(c)} vs {id(h)}; same repr: {repr(c) == repr(h)}): '
+             f'the wrapper answers is_subhint/is_bearable for another hint', {'hint': spec(h), 'got': repr(c), 'order': pool_spec(pool[:n_fixed])}, 1)
 
     # ---- real matrices -------------------------------------------------------------------
     LE = [[real_le(a, b) for b in pool] for a in pool]
@@ -858,7 +879,7 @@ def children_oracle(w):
 
 
 # ----------------------------------------------------------------------------- replay
-NAMES = {'U0': U0, 'U1': U1, 'TV': TV, 'TC': TC, 'TF': TF, 'TB': TB, 'TO': TO, 'NT': NT, 'NU': NU, 'NN': NN, 'NL': NL,
+NAMES = {'TV_2': TV_2, 'NT_2': NT_2, 'U0_2': U0_2, 'U0': U0, 'U1': U1, 'TV': TV, 'TC': TC, 'TF': TF, 'TB': TB, 'TO': TO, 'NT': NT, 'NU': NU, 'NN': NN, 'NL': NL,
          'AV1': AV1, 'AV2': AV2, 'AVB': AVB}
 
 
